@@ -13,16 +13,19 @@ type Finding struct {
 
 // Shape is the history class of a run (the hypothesis of c05_no_duplicate_partial is Shape == "in-class").
 type Shape struct {
-	ConnDrop  bool // a connection-level failure hit a request that carried sequenced batches
-	EpochBump bool // a sequenced message was failed while another sequenced message was unresolved
-	Parts     int  // partitions that received batches
-	MaxBatch  int  // largest batch
+	ConnDrop    bool // a connection-level failure hit a request that carried sequenced batches
+	EpochBump   bool // a sequenced message was failed while another sequenced message was unresolved
+	Unsequenced bool // flushRetryBuffers forwarded a first-pass message that never got a sequence number
+	Parts       int  // partitions that received batches
+	MaxBatch    int  // largest batch
 }
 
 func (s Shape) Name() string {
 	switch {
 	case s.ConnDrop:
 		return "conn-drop:requeued-individually"
+	case s.Unsequenced:
+		return "unsequenced-backlog:flushed-without-sequence"
 	case s.EpochBump:
 		return "epoch-bump:other-messages-in-flight"
 	}
@@ -58,6 +61,9 @@ func Classify(res *Result) Shape {
 		case "pp.send":
 			if e.Msg.Retries == 0 && e.Msg.Flags == 0 && e.Msg.HasSeq {
 				live[e.Msg.ID] = true
+			}
+			if e.Msg.Retries == 0 && e.Msg.Flags == 0 && !e.Msg.HasSeq {
+				s.Unsequenced = true
 			}
 		case "return.success":
 			delete(live, e.Msg.ID)
